@@ -217,4 +217,10 @@ theorem hexN_noq (n : Nat) (t b : Bytes) (h : hexN n t = some b) : q ∉ t := by
   | none => simp [hd] at h
   | some b' => exact hex_decode_noq t b' hd
 
+theorem hexSeed_noq (t b : Bytes) (h : hexSeed t = some b) : q ∉ t := by
+  unfold hexSeed at h
+  cases hd : Hex.decode t with
+  | none => simp [hd] at h
+  | some b' => exact hex_decode_noq t b' hd
+
 end O4.SF
